@@ -104,7 +104,12 @@ def validate_against_pyzx(g, T):
         t = np.asarray(pyzx.tensorfy(g, preserve_scalar=True)).flatten()
     except Exception as e:            # pyzx cannot handle it: nothing to say
         return True
-    ref = np.array([complex(sympy.N(x)) for x in T.flatten()])
+    # pyzx orders tensor axes outputs first, then inputs
+    n_in, n_out = len(g.inputs), len(g.outputs)
+    Tt = np.transpose(T.reshape((2,) * (n_in + n_out) or (1,)),
+                      list(range(n_in, n_in + n_out)) + list(range(n_in))) \
+        if n_in + n_out else T
+    ref = np.array([complex(sympy.N(x)) for x in Tt.flatten()])
     return bool(np.allclose(t, ref, atol=1e-8))
 
 
@@ -133,17 +138,19 @@ def is_simple(d):
     return True
 
 
-def gen_zx(E, k, w, nsym):
+def gen_zx(E, k, w, nsym, dmax=2, kinds=None):
     from discopy.quantum import zx
-    n = E.choice('dom', range(0, min(w, 2) + 1))
+    n = E.choice('dom', range(0, min(w, dmax) + 1))
     d = zx.Id(n)
     syms = []
     for i in range(k):
         scan = len(d.cod)
-        kind = E.choice('kind%d' % i, ['Z', 'X', 'H', 'SWAP', 'scalar'])
+        kind = E.choice('kind%d' % i, kinds or ['Z', 'X', 'H', 'SWAP',
+                                                  'scalar'])
         if kind in ('Z', 'X'):
-            m = E.choice('m%d' % i, range(0, min(2, scan) + 1))
-            o = E.choice('o%d' % i, range(0, 3))
+            m = E.choice('m%d' % i, range(0, min(2, scan) + 1)
+                         if kinds is None else [2])
+            o = E.choice('o%d' % i, range(0, 3) if kinds is None else [1])
             if scan - m + o > w:
                 raise Abort()
             ph = E.choice('ph%d' % i, ['sym', 'zero', 'quarter'])
@@ -193,12 +200,12 @@ def export(E, k, w):
     E.cover("exported")
 
 
-def roundtrip(E, k, w):
+def roundtrip(E, k, w, dmax=2, kinds=None):
     from vf import pyzx_adapter
     from discopy.quantum import zx
     pyzx_adapter.install()
     sym.begin(E)
-    d = gen_zx(E, k, w, 2)
+    d = gen_zx(E, k, w, 2, dmax, kinds)
     if not is_simple(d):
         raise Abort()
     E.note('diagram', str(d))
@@ -228,7 +235,7 @@ def roundtrip(E, k, w):
     E.cover("roundtrip")
 
 
-def raw_graphs(E, nsp, nb):
+def raw_graphs(E, nsp, nb, nb_in=1, bad=False):
     """from_pyzx on solver-chosen simple graphs"""
     from vf import pyzx_adapter
     from discopy.quantum import zx
@@ -236,7 +243,7 @@ def raw_graphs(E, nsp, nb):
     from pyzx import VertexType, EdgeType
     pyzx_adapter.install()
     sym.begin(E)
-    n_in = E.choice('n_in', range(0, nb + 1))
+    n_in = E.choice('n_in', range(0, nb_in + 1))
     n_out = E.choice('n_out', range(0, nb + 1))
     ns = E.choice('ns', range(1, nsp + 1))
     order = E.choice('order', ['inputs-first', 'spiders-first'])
@@ -244,10 +251,11 @@ def raw_graphs(E, nsp, nb):
     ins, outs, sp = [], [], []
     def add_spiders():
         for i in range(ns):
-            ty = E.choice('ty%d' % i, [VertexType.Z, VertexType.X])
-            ph = E.choice('ph%d' % i, ['sym', 'zero'])
+            ty = E.choice('ty%d' % i, [VertexType.Z, VertexType.X]) \
+                if i == 0 else VertexType.Z
+            from fractions import Fraction
             sp.append(g.add_vertex(ty, phase=2 * sym.sym(E, 'p%d' % i)
-                                   if ph == 'sym' else None))
+                                   if i == 0 else Fraction(1, 2)))
     def add_ins():
         for i in range(n_in):
             ins.append(g.add_vertex(VertexType.BOUNDARY))
@@ -273,7 +281,7 @@ def raw_graphs(E, nsp, nb):
         if e != 'none':
             g.add_edge((a, b), EdgeType.SIMPLE if e == 'simple'
                        else EdgeType.HADAMARD)
-    declared = E.choice('declared', ['ok', 'missing', 'shared'])
+    declared = E.choice('declared', ['missing', 'shared']) if bad else 'ok'
     g.set_inputs(ins)
     g.set_outputs(outs)
     if declared == 'missing':
@@ -315,13 +323,26 @@ def harnesses(tier):
           "phase symbolic / 0 / 1/4), H, SWAP, numeric scalars, width <= %d, "
           "simple underlying graph" % (k, w),
           outside="non-simple graphs; pyzx's own algorithms", timeout_s=T),
-        H("roundtrip", roundtrip, dict(k=k, w=w), FUNCS, covers=["roundtrip"],
+        H("roundtrip", roundtrip, dict(k=k, w=w, dmax=2), FUNCS,
+          covers=["roundtrip"],
           stubs=STUBS, engine="SYM (z3 QF_NRA)",
           bounds="same diagrams as export", timeout_s=T),
-        H("raw_graphs", raw_graphs, dict(nsp=2, nb=2 if q else 3), FUNCS,
-          covers=["imported", "refused"], stubs=STUBS,
+        H("roundtrip_wide", roundtrip,
+          dict(k=3, w=3, dmax=3, kinds=['X', 'H', 'SWAP']), FUNCS,
+          covers=["roundtrip"], stubs=STUBS, engine="SYM (z3 QF_NRA)",
+          bounds="3 input wires then 3 boxes over {X(2,1,phase), H, SWAP}: "
+          "spiders whose input wires have to be moved next to each other",
+          timeout_s=T),
+        H("bad_boundaries", raw_graphs, dict(nsp=1, nb=1, nb_in=1, bad=True),
+          FUNCS, covers=["refused"], stubs=STUBS, engine="DSE-chosen graphs",
+          bounds="graphs of one spider, <= 1 input, <= 1 output, with a "
+          "boundary vertex missing from or shared between inputs/outputs",
+          timeout_s=T),
+        H("raw_graphs", raw_graphs, dict(nsp=2, nb=2 if q else 3,
+                                         nb_in=1 if q else 2), FUNCS,
+          covers=["imported"], stubs=STUBS,
           engine="SYM (z3 QF_NRA) + DSE-chosen graphs",
-          bounds="simple graphs of <= 2 spiders (Z/X, symbolic or zero phase)"
+          bounds="simple graphs of <= 2 spiders (first Z/X with symbolic phase, second Z with phase 1/4)"
           ", <= %d inputs and outputs attached by simple or Hadamard edges, "
           "spider-spider edges none/simple/Hadamard, vertex numbering inputs-"
           "first or spiders-first, boundaries declared / missing / shared"
